@@ -17,6 +17,7 @@ use std::{
 
 use serde::{Deserialize, Serialize};
 
+pub mod quarantine;
 pub mod worker;
 
 // ---------------------------------------------------------------- PRNG
@@ -267,6 +268,9 @@ impl Decider {
     pub fn log(&mut self, f: impl FnOnce() -> String) {
         if self.log_on && self.log.len() < 400_000 {
             let s = f();
+            if trace_to_stderr() {
+                eprintln!("  | {s}");
+            }
             self.log.push(s);
         }
     }
@@ -280,6 +284,12 @@ impl Decider {
     pub fn choices(&self) -> Vec<u64> {
         self.trace.iter().map(|t| t.2).collect()
     }
+}
+
+/// VERIF_TRACE=1: echo the event log to stderr as it is produced (debugging hangs).
+pub fn trace_to_stderr() -> bool {
+    static T: std::sync::OnceLock<bool> = std::sync::OnceLock::new();
+    *T.get_or_init(|| std::env::var_os("VERIF_TRACE").is_some())
 }
 
 // ---------------------------------------------------------------- thread-local access
@@ -387,6 +397,10 @@ pub fn install_panic_hook() {
             } else {
                 "<non-string panic payload>".to_string()
             };
+            // deliberate panics of workload code (task bodies that are meant to panic)
+            if msg.starts_with("[expected]") {
+                return;
+            }
             let loc = info
                 .location()
                 .map(|l| format!("{}:{}", l.file(), l.line()))
@@ -415,7 +429,9 @@ pub fn execute(scenario: &dyn Fn() -> RunResult, mut d: Decider, log: bool) -> F
     CUR.with(|c| *c.borrow_mut() = Some(d));
     LAST_PANIC.with(|p| *p.borrow_mut() = None);
     IN_RUN.with(|c| c.set(true));
+    quarantine::begin();
     let r = panic::catch_unwind(AssertUnwindSafe(scenario));
+    quarantine::end();
     IN_RUN.with(|c| c.set(false));
     let mut d = CUR.with(|c| c.borrow_mut().take()).expect("decider vanished");
     let result = match r {
@@ -448,7 +464,7 @@ pub fn minimise(
 ) -> (Vec<u64>, u64) {
     let start = Instant::now();
     let mut attempts = 0u64;
-    let mut fails = |cand: &Vec<u64>, attempts: &mut u64| -> Option<Vec<u64>> {
+    let fails = |cand: &Vec<u64>, attempts: &mut u64| -> Option<Vec<u64>> {
         *attempts += 1;
         let f = execute(scenario, Decider::replay(seed, cand.clone()), false);
         match f.result {
